@@ -43,12 +43,26 @@ static void run_vmp(const Vals& v, Ctx& c, bool bigshape) {
   for (uint64_t i = 0; i < nrows * ncols; ++i)
     if (r.below(6) == 0) { memset(mat + i * n, 0, n * 8); ++zero_entries; }
   for (uint64_t i = 0; i < a_size; ++i) pat::fill(a + i * a_sl, n, (fam / 8 + (int)i) % pat::NFAM, M, r.next(), r);
+  // asymmetric magnitudes (one case in four): gadget-like matrix entries up to 2^(51-k-abits) against a small vector, entries whose
+  // coefficients are multiples of 2^32 among them -- the per-pair budget N*|a|*|m| < 2^52 is the same as in the symmetric case
+  bool asym = false;
+  if (((v[12] >> 17) & 3) == 0 && k <= 12) {
+    asym = true;
+    const int abits = 1 + (int)((v[12] >> 19) % 4), mbits = 51 - (int)k - abits;
+    const int64_t Ma = ((int64_t)1 << abits) - 1, Mm = ((int64_t)1 << mbits) - 1;
+    for (uint64_t i = 0; i < nrows * ncols; ++i) {
+      pat::fill(mat + i * n, n, (fam + (int)i) % pat::NFAM, Mm, r.next(), r);
+      if (mbits >= 34 && r.below(3) == 0)
+        for (uint64_t q = 0; q < n; ++q) mat[i * n + q] = q && (r.next() & 1) ? (int64_t)((uint64_t)mat[i * n + q] & ~0xFFFFFFFFull) : (q ? 0 : r.sym(7));
+    }
+    for (uint64_t i = 0; i < a_size; ++i) pat::fill(a + i * a_sl, n, (fam / 8 + (int)i) % pat::NFAM, Ma, r.next(), r);
+  }
   // per-pair budget (each single product must be inside the C01 budget) -- by construction: bits <= 24 =>
   // |a|_1*|b|_inf <= N*2^48 ... so cap the magnitude for large N instead of rejecting
   {
     // N * M * M < 2^52  <=>  2*bits + k < 52
     int maxbits = (52 - (int)k - 1) / 2;
-    if (bits > maxbits) {
+    if (bits > maxbits && !asym) {
       int sh = bits - maxbits;
       for (uint64_t i = 0; i < nrows * ncols * n; ++i) mat[i] /= ((int64_t)1 << sh);
       for (uint64_t i = 0; i < a_size; ++i)
@@ -135,6 +149,7 @@ static void run_vmp(const Vals& v, Ctx& c, bool bigshape) {
   c.cls(entry == 0 ? "entry:apply_dft" : entry == 1 ? "entry:dft_to_dft" : "entry:both");
   if (bigshape) c.cls("bigshape");
   if (zero_entries) c.cls("matrix:has-zero-polynomial");
+  if (asym) c.cls("magnitudes:large matrix x small vector");
 }
 
 std::vector<Sub> vh_subs() {
